@@ -420,7 +420,7 @@ def gen_parse_text(rng: random.Random) -> tuple[str, str]:
 
 
 def corr_parse(ck: Ck):
-    n = ck.budget(1000, 6000)
+    n = ck.budget(800, 6000)
     cases = []
     for i in range(n):
         if i < len(CORPUS_TEXT):
@@ -636,22 +636,29 @@ def scripted_parse(word, bits: int, fin: int):
 
 def corr_tokens(ck: Ck) -> None:
     """Exhaustive small scope at the token level."""
-    n = 5 if ck.thorough else 4
-    shards = [(bits, 0) for bits in range(16)] + [(bits, 1) for bits in (2, 6)]
+    # (option bits, ending, max length).  quick: every option vector up to length 3, five vectors (none, defaults,
+    # single_line, single_block, all) up to length 4, a tokenizer error as ending under the defaults and single_line;
+    # thorough: every vector up to length 5.
+    if ck.thorough:
+        shards = [(bits, 0, 5) for bits in range(16)] + [(2, 1, 5), (6, 1, 5)]
+    else:
+        shards = [(bits, 0, 4 if bits in (0, 2, 6, 10, 15) else 3) for bits in range(16)] + [(2, 1, 3), (6, 1, 3)]
     want = {}
     outcomes: dict = {}
-    for bits, fin in shards:
+    nwords = 0
+    for bits, fin, n in shards:
         tot = 0
         for w in words(n):
             r = scripted_parse(w, bits, fin)
             tot = (tot + hash63([bits, fin, len(w), *w, *enc_result(r)])) & M63
-            ck.count('token_exhaustive_cases')
+            nwords += 1
             k = r[0] if r[0] != 'err' else ERR_NAMES.get(r[1], str(r[1]))
             outcomes[k] = outcomes.get(k, 0) + 1
-        want[(bits, fin)] = tot
+        want[(bits, fin, n)] = tot
+    ck.count('token_exhaustive_cases', nwords)
     for k, v in sorted(outcomes.items()):
         ck.hist('token_exhaustive_outcome', k, v)
-    vals = ck.coq_eval(IMPORTS, [f'tok_shard_hash gen_parsecfg {b} {f} {n}' for b, f in shards], name='tokenum', preamble=PRE)
+    vals = ck.coq_eval(IMPORTS, [f'tok_shard_hash gen_parsecfg {b} {f} {n}' for b, f, n in shards], name='tokenum', preamble=PRE)
     if vals is None:
         ck.obligation('correspondence:parse-token-exhaustive', False, 'model could not be evaluated')
         ck.tie_broken.append('exhaustive token-level correspondence: model evaluation failed')
@@ -659,11 +666,10 @@ def corr_tokens(ck: Ck) -> None:
     import re as _re
     got = {sh: int(_re.sub(r'%[A-Za-z0-9_]+$', '', v.strip()), 0) for sh, v in zip(shards, vals)}
     bad = [sh for sh in shards if got[sh] != want[sh]]
-    nwords = sum(9 ** k for k in range(n + 1))
     detail = ''
     if bad:
         # locate one disagreement: literal model results for the first bad shard
-        b, f = bad[0]
+        b, f, n = bad[0]
         lits = ck.coq_eval(IMPORTS, [f'tok_shard_cases gen_parsecfg {b} {f} {n}'], name='tokenum_cases', preamble=PRE)
         if lits is not None:
             model = {}
@@ -681,9 +687,9 @@ def corr_tokens(ck: Ck) -> None:
                     break
         ck.tie_broken.append('exhaustive token-level correspondence (KV/KvParse.v vs Keyvalues.parse on a scripted tokenizer)')
     ck.obligation('correspondence:parse-token-exhaustive', not bad,
-                  f'all {nwords} token strings up to length {n} over 9 symbols x {len(shards)} (option vector, ending) pairs, '
-                  f'prun (vm_compute) vs Keyvalues.parse on a scripted tokenizer, checksum per pair: '
-                  f'{len(bad)} pairs differ' + detail)
+                  f'{nwords} cases = all token strings over 9 symbols up to length {max(s_[2] for s_ in shards)} (every option '
+                  f'vector up to length {min(s_[2] for s_ in shards)}) in {len(shards)} (option vector, ending) shards, prun '
+                  f'(vm_compute) vs Keyvalues.parse on a scripted tokenizer, checksum per shard: {len(bad)} shards differ' + detail)
 
 
 # ------------------------------------------------------------------------------------------------ dynamic tie of the tables
@@ -930,7 +936,7 @@ SEARCH_CORPUS = [
 
 
 def search(ck: Ck) -> None:
-    n = ck.budget(3000, 15000)
+    n = ck.budget(2500, 15000)
     found: dict[str, tuple] = {}
     shrinks: dict[str, int] = {}
     shrunk_docs: set = set()
